@@ -7,6 +7,10 @@ HARNESSES = [
          unwind=12,
          cases=[dict(name="faults", defs={})]),
 ]
+_hsf = COMMON["hs_dispatch"](only=("tls12",))
+_hsf.update(name="hs_dispatch_faults", malloc_may_fail=True)
+_hsf["assumptions"] = _hsf["assumptions"] + ["hs_dispatch_faults: every allocation of the dispatcher may fail (symbolic fault schedule on the tape)"]
+HARNESSES.append(_hsf)
 HARNESSES.append(
     dict(name="gn_parse_faults", dir="C09", src="gn_parse.c", checks=COMMON["MEMCHECKS"], malloc_may_fail=True, units=["crypto/keyformat/asn1.c"],
          functions=["parseGeneralNames"], sources=["crypto/keyformat/x509.c"],
@@ -18,8 +22,8 @@ HARNESSES.append(
                                 "parseGeneralNames:/for \\(c = p; c < save/": 10,
                                 "strncpy.0": 20, "vf_harness:/for \\(/": 11})]))
 PROPERTY = dict(level='model_checking',
-    claim='With every allocation allowed to fail (fault bits drawn from the tape, all schedules decided at once): no NULL dereference, failures are reported as negative return codes, nothing leaks after delete.',
+    claim='With every allocation allowed to fail (fault bits drawn from the tape, all schedules decided at once): no NULL dereference, failures are reported as negative return codes, nothing leaks after delete; in the handshake dispatcher (fragment buffers, cookie, NewSessionTicket) a failed allocation never leaves the session ticket pointer dangling or its length stale.',
     bounds='matrixSslNewClientSession (callees stubbed), parseGeneralNames on 9-byte DER',
-    outside='all other allocation sites (key loading, handshake, bignum scratch buffers, ticket keys)',
-    explanation='With every allocation allowed to fail (fault bits drawn from the tape, all schedules decided at once): no NULL dereference, failures are reported as negative return codes, nothing leaks after delete.',
+    outside='all other allocation sites (key loading, the per-message parsers, bignum scratch buffers, ticket keys)',
+    explanation='With every allocation allowed to fail (fault bits drawn from the tape, all schedules decided at once): no NULL dereference, failures are reported as negative return codes, nothing leaks after delete; in the handshake dispatcher (fragment buffers, cookie, NewSessionTicket) a failed allocation never leaves the session ticket pointer dangling or its length stale.',
     assumptions=[])
